@@ -8,9 +8,9 @@ open SigModel.Wal (Dp)
 open SigModel.WalRecover
 
 /-- block files after: the writer dies inside a block-rotation pass after `m` steps, restart recovers completely -/
-def diskAfterRotateCrash (cap shard : Nat) (h : List Op) (m : Nat) : Disk :=
+def diskAfterRotateCrashOld (cap shard : Nat) (h : List Op) (m : Nat) : Disk :=
   let st := blockRotateCrash m (run cap shard h)
-  applyFlushes st.durable (recover (rawOf st.files))
+  applyFlushes st.durable (recoverOld (rawOf st.files))
 
 /-- guard for a crash inside rotateBlock: only flushBlock completed (m = 1), or every WAL file of the block is
 already deleted (m > number of files) -/
@@ -59,11 +59,11 @@ theorem groupsOfSorted_files (Q : RawFile → Prop) (l : RawDir) (hl : ∀ f ∈
     · exact ih hfs _ (addFile_files Q _ f hf acc h)
 
 /-- the files of a group are files of the directory -/
-theorem groups_files (Q : RawFile → Prop) (d : RawDir) (hd : ∀ f ∈ d, Q f) : ∀ g ∈ groups d, ∀ x ∈ g.files, Q x :=
+theorem groups_files (Q : RawFile → Prop) (d : RawDir) (hd : ∀ f ∈ d, Q f) : ∀ g ∈ groupsOld d, ∀ x ∈ g.files, Q x :=
   groupsOfSorted_files Q _ (fun f hf => hd f ((mem_readDir f d).mp hf)) [] (by intro g hg; cases hg)
 
-theorem recover_no_dps (d : RawDir) (hd : ∀ f ∈ d, fileDps f = []) : recover d = [] := by
-  unfold recover
+theorem recover_no_dps (d : RawDir) (hd : ∀ f ∈ d, fileDps f = []) : recoverOld d = [] := by
+  unfold recoverOld
   rw [List.filterMap_eq_nil_iff]
   intro g hg
   have : groupDps g = [] := by
@@ -72,7 +72,7 @@ theorem recover_no_dps (d : RawDir) (hd : ∀ f ∈ d, fileDps f = []) : recover
     exact groups_files (fun f => fileDps f = []) d hd g hg
   simp [this]
 
-theorem recover_nil : recover [] = [] := recover_no_dps [] (by intro f hf; cases hf)
+theorem recover_nil : recoverOld [] = [] := recover_no_dps [] (by intro f hf; cases hf)
 
 /-! ### crash inside rotateBlock -/
 
@@ -93,15 +93,15 @@ theorem prefix_after_flush {st : WState} {sp : Spec} (h : R st sp) (k : Key) :
 theorem rotate_crash_partial (cap shard : Nat) (h : List Op) (m : Nat) (hm : rotateCrashGuard cap shard h m)
     (hg : fewWalFiles cap shard h)
     (hs : (run cap shard h).seg < 18446744073709551616) (hb : (run cap shard h).blkNum < 18446744073709551616) (k : Key) :
-    specBlock cap shard h k <+: lookup k (diskAfterRotateCrash cap shard h m) := by
+    specBlock cap shard h k <+: lookup k (diskAfterRotateCrashOld cap shard h m) := by
   have hr := R_run cap shard h
   have hinv := inv_run cap shard h
-  unfold diskAfterRotateCrash blockRotateCrash
+  unfold diskAfterRotateCrashOld blockRotateCrash
   by_cases he : (run cap shard h).cur.isEmpty = true
   · rw [if_pos he]
     have := recover_exact cap shard h hg hs hb k
-    unfold diskAfterRecovery durableBlocks dirAfter at this
-    show specBlock cap shard h k <+: lookup k (applyFlushes (run cap shard h).durable (recover (rawOf (run cap shard h).files)))
+    unfold diskAfterRecoveryOld durableBlocks dirAfter at this
+    show specBlock cap shard h k <+: lookup k (applyFlushes (run cap shard h).durable (recoverOld (rawOf (run cap shard h).files)))
     rw [this]
     exact List.prefix_refl _
   · rw [if_neg he]
@@ -111,7 +111,7 @@ theorem rotate_crash_partial (cap shard : Nat) (h : List Op) (m : Nat) (hm : rot
     · subst h1
       show blockOf (specRun cap shard h).done k <+:
         lookup k (applyFlushes (flushTo (curKey (run cap shard h)) (run cap shard h).cur (run cap shard h).durable)
-          (recover (rawOf (run cap shard h).files)))
+          (recoverOld (rawOf (run cap shard h).files)))
       rw [recover_writer _ hinv hs hb, readDir_writer _ hinv hg, flatMap_rawOf]
       by_cases hx : (List.flatMap (fun f => f.2.flatten) (run cap shard h).files).isEmpty = true
       · rw [if_pos hx]
@@ -135,15 +135,15 @@ theorem rotate_crash_partial (cap shard : Nat) (h : List Op) (m : Nat) (hm : rot
         have hd : List.drop (m - 1) (run cap shard h).files = [] := List.drop_eq_nil_of_le (by omega)
         show blockOf (specRun cap shard h).done k <+:
           lookup k (applyFlushes (flushTo (curKey (run cap shard h)) (run cap shard h).cur (run cap shard h).durable)
-            (recover (rawOf (List.drop (m - 1) (run cap shard h).files))))
+            (recoverOld (rawOf (List.drop (m - 1) (run cap shard h).files))))
         rw [hd]
         show blockOf (specRun cap shard h).done k <+:
           lookup k (applyFlushes (flushTo (curKey (run cap shard h)) (run cap shard h).cur (run cap shard h).durable)
-            (recover []))
+            (recoverOld []))
         rw [recover_nil]
         exact prefix_after_flush hr k
       · rw [if_neg hle]
-        have hrec : recover (rawOf (rotateBlock (run cap shard h)).files) = [] := by
+        have hrec : recoverOld (rawOf (rotateBlock (run cap shard h)).files) = [] := by
           apply recover_no_dps
           intro f hf
           have : (rotateBlock (run cap shard h)).files =
@@ -160,7 +160,7 @@ theorem rotate_crash_partial (cap shard : Nat) (h : List Op) (m : Nat) (hm : rot
 
 /-- guard for a crash inside RecoverWALData: it died before its first step, or after its last one -/
 def recoverCrashGuard (cap shard : Nat) (h : List Op) (m : Nat) : Prop :=
-  m = 0 ∨ (recoverActions (dirAfter cap shard h)).length ≤ m
+  m = 0 ∨ (recoverActionsOld (dirAfter cap shard h)).length ≤ m
 
 theorem foldl_deletes (disk : Disk) (l : RawDir) : ∀ s : RawDir,
     ((l.map (fun f => RecAction.delete f.1)).foldl applyRecAction (s, disk)).2 = disk ∧
@@ -199,10 +199,10 @@ theorem foldl_deletes_self (disk : Disk) (d : RawDir) :
 
 theorem recoverActions_writer (st : WState) (hinv : Inv st) (hfew : st.walIdx < 10) (hs : st.seg < 18446744073709551616)
     (hb : st.blkNum < 18446744073709551616) :
-    recoverActions (rawOf st.files) =
+    recoverActionsOld (rawOf st.files) =
       (rawOf st.files).map (fun f => RecAction.delete f.1)
         ++ (if (logged st).isEmpty then [] else [RecAction.flush (curKey st) (logged st)]) := by
-  unfold recoverActions
+  unfold recoverActionsOld
   rw [groups_writer st hinv hs hb, readDir_writer st hinv hfew]
   have hd : groupDps { info := infoOf st, files := rawOf st.files } = logged st := flatMap_rawOf st.files
   simp only [List.flatMap_cons, List.flatMap_nil, List.append_nil, hd]
@@ -211,9 +211,9 @@ theorem recoverActions_writer (st : WState) (hinv : Inv st) (hfew : st.walIdx < 
 /-- RecoverWALData ran to its end: the WAL directory is empty, the block files are the recovered ones -/
 theorem recoverCrashed_full (st : WState) (hinv : Inv st) (hfew : st.walIdx < 10) (hs : st.seg < 18446744073709551616)
     (hb : st.blkNum < 18446744073709551616) (disk : Disk) (m : Nat)
-    (hm : (recoverActions (rawOf st.files)).length ≤ m) :
-    recoverCrashed m (rawOf st.files) disk = ([], applyFlushes disk (recover (rawOf st.files))) := by
-  unfold recoverCrashed
+    (hm : (recoverActionsOld (rawOf st.files)).length ≤ m) :
+    recoverCrashedOld m (rawOf st.files) disk = ([], applyFlushes disk (recoverOld (rawOf st.files))) := by
+  unfold recoverCrashedOld
   rw [List.take_of_length_le hm, recoverActions_writer st hinv hfew hs hb, List.foldl_append, foldl_deletes_self,
     recover_writer st hinv hs hb, readDir_writer st hinv hfew, flatMap_rawOf]
   show List.foldl applyRecAction ([], disk) (if (logged st).isEmpty then [] else [RecAction.flush (curKey st) (logged st)])
@@ -225,17 +225,17 @@ theorem recoverCrashed_full (st : WState) (hinv : Inv st) (hfew : st.walIdx < 10
 theorem recover_crash_partial (cap shard : Nat) (h : List Op) (m : Nat) (hm : recoverCrashGuard cap shard h m)
     (hg : fewWalFiles cap shard h)
     (hs : (run cap shard h).seg < 18446744073709551616) (hb : (run cap shard h).blkNum < 18446744073709551616) (k : Key) :
-    lookup k (diskAfterCrashedRecovery m (dirAfter cap shard h) (durableBlocks cap shard h)) = specBlock cap shard h k := by
+    lookup k (diskAfterCrashedRecoveryOld m (dirAfter cap shard h) (durableBlocks cap shard h)) = specBlock cap shard h k := by
   have hex := recover_exact cap shard h hg hs hb k
-  unfold diskAfterRecovery at hex
+  unfold diskAfterRecoveryOld at hex
   unfold recoverCrashGuard at hm
   rcases hm with hm | hm
   · subst hm
     exact hex
-  · unfold diskAfterCrashedRecovery
+  · unfold diskAfterCrashedRecoveryOld
     unfold dirAfter at hm ⊢
     rw [recoverCrashed_full _ (inv_run cap shard h) hg hs hb _ m hm]
-    show lookup k (applyFlushes (applyFlushes (durableBlocks cap shard h) (recover (rawOf (run cap shard h).files))) (recover []))
+    show lookup k (applyFlushes (applyFlushes (durableBlocks cap shard h) (recoverOld (rawOf (run cap shard h).files))) (recoverOld []))
       = specBlock cap shard h k
     rw [recover_nil]
     exact hex
@@ -244,7 +244,7 @@ theorem recover_crash_partial (cap shard : Nat) (h : List Op) (m : Nat) (hm : re
 
 def hx : List Op := [.ingest 0 ⟨100, 1, 7⟩ false, .walFlush true, .ingest 0 ⟨110, 2, 7⟩ false, .walFlush false]
 theorem hx_rotate_crash : specBlock 1000 0 hx (dec 0, 0, 0) = [⟨100, 1, 7⟩, ⟨110, 2, 7⟩]
-    ∧ lookup (dec 0, 0, 0) (diskAfterRotateCrash 1000 0 hx 2) = [⟨110, 2, 7⟩] := by decide +kernel
-theorem hx_recover_crash : lookup (dec 0, 0, 0) (diskAfterCrashedRecovery 1 (dirAfter 1000 0 hx) (durableBlocks 1000 0 hx)) = [⟨110, 2, 7⟩]
-    ∧ lookup (dec 0, 0, 0) (diskAfterCrashedRecovery 2 (dirAfter 1000 0 hx) (durableBlocks 1000 0 hx)) = [] := by decide +kernel
+    ∧ lookup (dec 0, 0, 0) (diskAfterRotateCrashOld 1000 0 hx 2) = [⟨110, 2, 7⟩] := by decide +kernel
+theorem hx_recover_crash : lookup (dec 0, 0, 0) (diskAfterCrashedRecoveryOld 1 (dirAfter 1000 0 hx) (durableBlocks 1000 0 hx)) = [⟨110, 2, 7⟩]
+    ∧ lookup (dec 0, 0, 0) (diskAfterCrashedRecoveryOld 2 (dirAfter 1000 0 hx) (durableBlocks 1000 0 hx)) = [] := by decide +kernel
 end SigModel.Lemmas.C10R
